@@ -12,14 +12,20 @@ Correspondence / oracles:
 * unit-level: the code's ``vcfstr``, GT formatting / sorting, ``sumarise_vcf_record``, the G-array producers and
   ``relabel`` against the model on generated inputs.
 
+The signatures of the repaired defects F3 (`C07/assemble/GP-refmasked-crash`) and F4 (`C07/call/relabel-n-alleles`)
+stay armed: the unit-level checks call `_genotype_posterior_as_array` / `relabel` the way the programs do and fall back
+to the old signatures, the program level runs GP on REFMASKED loci and zero priors on the last allele.
+
 A program that raises on a valid dataset violates C07 ("every line written ... is a valid record" presupposes that the
 record is written); crashes are reported with the exception chain.
 """
 from __future__ import annotations
 
 import copy
+import json
 import math
 import os
+import pickle
 import re
 import shutil
 import tempfile
@@ -43,9 +49,11 @@ THEOREMS = [
     "MCHap.C07.summarise_total",
     "MCHap.C07.gArray_length",
     "MCHap.C07.callGArray_length",
-    "MCHap.C07.assembleGP_length_partial",
-    "MCHap.C07.assembleGP_no_IndexError_partial",
-    "MCHap.C07.relabel_nAllele_partial",
+    "MCHap.C07.assembleGP_length",
+    "MCHap.C07.gpArraySize_default_partial",
+    "MCHap.C07.assembleGP_no_IndexError",
+    "MCHap.C07.relabel_nAllele",
+    "MCHap.C07.relabel_default_nAllele_partial",
     "MCHap.C07.formatGT_sorted_dots_last",
     "MCHap.C07.genotypeAsAlleles_perm",
     "MCHap.C07.round3_error",
@@ -553,9 +561,10 @@ def add_prior_field(r, text, mode):
     """add INFO/PF (Number=R) to every record of a haplotype VCF: the prior frequencies for --prior-frequencies PF.
 
     returns (new text, {record id: [values]}).  Patterns per record: all positive / last zero / a middle allele
-    zero / reference zero / all zero."""
+    zero / reference zero / all zero (mode "mixed" cycles through them record by record)."""
     out = []
     pf = {}
+    seen = {}
     for line in text.split("\n"):
         if line.startswith("##FORMAT") and not any(l.startswith("##INFO=<ID=PF,") for l in out):
             out.append('##INFO=<ID=PF,Number=R,Type=Float,Description="prior frequencies (harness)">')
@@ -565,14 +574,21 @@ def add_prior_field(r, text, mode):
         f = line.split("\t")
         n = 1 if f[4] == "." else 1 + len(f[4].split(","))
         vals = [r.choice([1, 2, 3, 5]) for _ in range(n)]
-        pat = mode if mode != "random" else r.choice(["positive", "last0", "last0", "mid0", "ref0", "all0"])
+        if mode == "mixed":
+            # deterministic cycle so that every pattern is met: multi-allele and single-allele records separately
+            cyc = ["last0", "all0!", "mid0", "ref0", "positive"] if n >= 2 else ["positive", "all0!"]
+            key = "multi" if n >= 2 else "single"
+            seen[key] = seen.get(key, 0) + 1
+            pat = cyc[(seen[key] - 1) % len(cyc)]
+        else:
+            pat = mode if mode != "random" else r.choice(["positive", "last0", "last0", "mid0", "ref0", "all0"])
         if pat == "last0" and n >= 2:
             vals[-1] = 0
         elif pat == "mid0" and n >= 3:
             vals[r.randrange(1, n - 1)] = 0
         elif pat == "ref0" and n >= 2:
             vals[0] = 0
-        elif pat == "all0" and r.random() < 0.5:
+        elif pat == "all0!" or (pat == "all0" and r.random() < 0.5):
             vals = [0] * n
         tot = sum(vals)
         txt = [("0" if v == 0 else f"{v / tot:.3f}".rstrip("0").rstrip(".")) if tot else "0" for v in vals]
@@ -610,8 +626,11 @@ class Runner:
         """returns (header lines, records, exit code, error text)"""
         chk = self.chk
         self.n_runs += 1
+        with open(os.path.join(self.work, "current_run.json"), "w") as f:
+            json.dump({"program": program, "argv": argv}, f)
         with Capture() as cap:
             out, code, err = S.run_program(argv)
+        cap_records = cap.records
         report = argv[argv.index("--report") + 1:] if "--report" in argv else []
         report = [x for x in report if not x.startswith("--")]
         tag = {"program": program, "report": report, "argv": [os.path.basename(a) if a.startswith(self.work) else a for a in argv],
@@ -640,7 +659,7 @@ class Runner:
         # ---- every emitted line
         htok = header_token(H)
         by_id = {x["ID"]: x for x in (in_records or [])}
-        captured = {c["id"]: c for c in cap.records}
+        captured = {c["id"]: c for c in cap_records}
         for rec in recs:
             line = rec["line"]
             canon = [program, line]
@@ -689,12 +708,14 @@ class Runner:
         # ---- pysam
         self.pysam_read(program, out, recs, tag, crashed=(code != 0))
         self.flush()
+        if getattr(self, "state", None):
+            dump_state(self.chk, self.state)
         return header, recs, code, err
 
     def classify_invalid(self, program, rec, bad, case, prior):
         chk = self.chk
         msgs = "; ".join(f"{k}: {v[0]}" for k, v in bad.items())
-        sig = f"C07/{program}/" + sorted(bad)[0]
+        sig = f"C07/{program}/" + first_failure(bad).split(":", 1)[1]
         card = " ".join(bad.get("keys-cardinality-type", []))
         if program == "assemble" and "REFMASKED" in rec["INFO"] and "FORMAT/GP" in card and set(bad) <= {"keys-cardinality-type"}:
             sig = SIG_F3
@@ -817,7 +838,7 @@ def dataset_runs(rn, ds, k, tier, plan):
     masked = {x["ID"] for x in recs if "REFMASKED" in x["INFO"]}
     chk.count(f"dataset-refmasked-loci={len(masked)}")
     hap_text = "\n".join(x for x in open(os.path.join(work, f"out{rn.n_runs}.vcf")).read().split("\n"))
-    # 2. assemble with GP (candidate defect F3 when a locus is REFMASKED)
+    # 2. assemble with GP (a REFMASKED locus is where the repaired defect F3 aborted the run; its signature stays armed)
     if "asm-gp" in plan:
         rep = report_subset(r, force=("GP",))
         rn.run(ds, "assemble", ds.assemble_argv(*MCMC, "--report", *rep), ploidies, refmasked_ids=masked)
@@ -837,7 +858,8 @@ def dataset_runs(rn, ds, k, tier, plan):
             rep = report_subset(r)
             rn.run(ds, program, base + ["--haplotypes", hap_gz, *extra, "--report", *rep], ploidies, in_records=in_recs)
         if f"{program}:prior" in plan:
-            # without INFO/AOP the short arrays of F4 are printed (silent); with it the run aborts
+            # the repaired defect F4: without INFO/AOP short R-arrays were printed silently, with it the run aborted;
+            # both variants stay exercised
             force = ("AFP", "ACP") if r.random() < 0.5 else ("AOP",)
             rep = [x for x in report_subset(r, force=force)]
             if "AOP" not in force:
@@ -1066,33 +1088,46 @@ def unit_garrays(chk, drv, r, n):
         post = Post()
         post.genotypes = np.array([[[a] for a in g] for g in gens], dtype=np.int8).reshape(len(gens), p, 1)
         post.probabilities = np.full(len(gens), 1.0 / max(1, len(gens)))
+        # the way the program calls it (n_alleles = len(haplotypes)); an older signature without the parameter is
+        # called the old way so that the oracle below judges what the program would print
+        def gp(**kw):
+            try:
+                return str(len(_genotype_posterior_as_array(post, labels, **kw)))
+            except IndexError:
+                return "error:IndexError"
         try:
-            impl = str(len(_genotype_posterior_as_array(post, labels)))
-        except IndexError:
-            impl = "error:IndexError"
+            impl = gp(n_alleles=n_alt + 1)
+        except TypeError:
+            impl = gp()
+        impl_default = gp()
         reqs += [f"vcf.gsize {n_alt} {p} {int(ref_called)}",
-                 f"vcf.gparr {n_alt} {p} {int(ref_called)} " + " ".join("/".join(map(str, g)) for g in gens)]
+                 f"vcf.gparr prog {n_alt} {p} {int(ref_called)} " + " ".join("/".join(map(str, g)) for g in gens),
+                 f"vcf.gparr default {n_alt} {p} {int(ref_called)} " + " ".join("/".join(map(str, g)) for g in gens)]
         # the call-side producers
         dist = PosteriorGenotypeAllelesDistribution(np.array(gens if gens else [[0] * p]), np.full(max(1, len(gens)), 0.5))
         n_call = len(dist.as_array(n_alt + 1))
         reads = np.zeros((0, 1, max(2, n_alt + 1)))
         n_gl = len(genotype_likelihoods(reads=reads, ploidy=p, haplotypes=haps.astype(np.int8), read_counts=np.zeros(0, dtype=np.int64)))
-        meta.append((n_alt, p, ref_called, gens, impl, n_call, n_gl))
+        meta.append((n_alt, p, ref_called, gens, impl, impl_default, n_call, n_gl))
     ans = drv.ask(reqs)
-    for j, (n_alt, p, ref_called, gens, impl, n_call, n_gl) in enumerate(meta):
-        size, arr = ans[2 * j], ans[2 * j + 1]
-        m_call, m_asm = size.split()
+    for j, (n_alt, p, ref_called, gens, impl, impl_default, n_call, n_gl) in enumerate(meta):
+        size, arr, arr_default = ans[3 * j], ans[3 * j + 1], ans[3 * j + 2]
+        m_call, m_asm, m_default = size.split()
         want = n_genotypes(n_alt + 1, p)
         chk.count("unit:garray"); chk.count("unit:garray refmasked" if not ref_called else "unit:garray ref-called")
-        chk.case(reqs[2 * j + 1], not ref_called and n_alt >= 1)
+        chk.case(reqs[3 * j + 1], not ref_called and n_alt >= 1)
         case = {"n_alt": n_alt, "ploidy": p, "ref_called": ref_called, "genotypes": gens}
         if int(m_call) != want:
             chk.disagreement("model callGArraySize != C(n+p-1, p)", {**case, "model": m_call, "expected": want})
         if n_call != want or n_gl != want:
             chk.violation("call-side G array not sized with the record's allele count", {**case, "as_array": n_call, "GL": n_gl, "expected": want}, "C07/call/g-length")
+        if int(m_asm) != want:
+            chk.disagreement("model assembleGPSize != C(n+p-1, p)", {**case, "model": m_asm, "expected": want})
         if impl != arr:
-            chk.disagreement("_genotype_posterior_as_array (length / IndexError) != model", {**case, "impl": impl, "model": arr})
-        if impl != str(want) and impl != "0":     # an empty array prints '.', a missing field
+            chk.disagreement("_genotype_posterior_as_array as the program calls it (length / IndexError) != model", {**case, "impl": impl, "model": arr})
+        if impl_default != arr_default:
+            chk.disagreement("_genotype_posterior_as_array with the default n_alleles (length / IndexError) != model", {**case, "impl": impl_default, "model": arr_default})
+        if impl != str(want):
             chk.violation(f"assemble GP array for a record with {n_alt + 1} alleles, ploidy {p}: {impl}, expected length {want}",
                           {**case, "impl": impl, "expected": want}, SIG_F3 if not ref_called else "C07/assemble/gp-length")
     # relabel
@@ -1105,11 +1140,20 @@ def unit_garrays(chk, drv, r, n):
         labels = np.where(~np.array(mask))[0]
         p = r.choice([2, 4])
         tr = GenotypeAllelesMultiTrace(np.zeros((1, 3, p), dtype=np.int64), np.zeros((1, 3)), len(labels))
-        new = tr.relabel(labels)
+        try:
+            new = tr.relabel(labels, n_allele=n_all)      # the way call / call-pedigree call it
+        except TypeError:
+            new = tr.relabel(labels)                      # older signature: what the programs would get
         freqs, counts, occ = new.posterior_frequencies()
-        reqs.append("vcf.relabel " + "".join("1" if m else "0" for m in mask))
-        meta.append((mask, int(new.n_allele), len(freqs)))
-    for q, a, (mask, impl, n_freq) in zip(reqs, drv.ask(reqs), meta):
+        dflt = tr.relabel(labels)
+        reqs += ["vcf.relabel prog " + "".join("1" if m else "0" for m in mask),
+                 "vcf.relabel default " + "".join("1" if m else "0" for m in mask)]
+        meta.append((mask, int(new.n_allele), len(freqs), int(dflt.n_allele)))
+    ans = drv.ask(reqs)
+    for j, (mask, impl, n_freq, impl_default) in enumerate(meta):
+        q, a, a_default = reqs[2 * j], ans[2 * j], ans[2 * j + 1]
+        if int(a_default) != impl_default:
+            chk.disagreement("relabel default n_allele != model", {"mask": mask, "impl": impl_default, "model": a_default})
         chk.count("unit:relabel"); chk.count("unit:relabel last-masked" if mask[-1] else "unit:relabel last-kept")
         chk.case(q, mask[-1])
         if int(a) != impl:
@@ -1197,18 +1241,98 @@ def run(tier, replay=None):
         unit_vcfstr(chk, drv, r, n_unit * 2)
         unit_gt(chk, drv, r, n_unit)
         unit_summarise(chk, drv, r, n_unit)
-        unit_garrays(chk, drv, r, n_unit)
+        program_phase_isolated(chk, drv, r, work, tier, n_unit)
+    finally:
+        shutil.rmtree(work, ignore_errors=True)
+    return chk.finish()
+
+
+_STATE = ("evaluations", "nontrivial", "samples", "hist", "disagreements", "violations", "known_hits", "notes", "extra")
+
+
+def program_phase_isolated(chk, drv, r, work, tier, n_unit):
+    """Run the program phase in a forked child and merge its bookkeeping back.
+
+    The jitted code does no bounds checking: an array sized with the wrong allele count can corrupt the heap and
+    abort the interpreter.  The child dumps the check's state after every program run, so a death by signal is
+    reported as a violation naming the run that was in progress, together with everything found before it."""
+    import sys
+    state = os.path.join(work, "state.pkl")
+    sys.stdout.flush()
+    sys.stderr.flush()
+    pid = os.fork()
+    if pid == 0:
+        status = 3
+        try:
+            program_phase(chk, drv, r, work, tier, state, n_unit)
+            status = 0
+        except C.Infra as e:
+            try:
+                with open(os.path.join(work, "infra.txt"), "w") as f:
+                    f.write(str(e))
+            except OSError:
+                pass
+            status = 4
+        except BaseException:   # noqa: BLE001
+            import traceback
+            try:
+                with open(os.path.join(work, "infra.txt"), "w") as f:
+                    f.write(traceback.format_exc())
+            except OSError:
+                pass
+            status = 3
+        finally:
+            os._exit(status)
+    _, st = os.waitpid(pid, 0)
+    if os.path.exists(state):
+        with open(state, "rb") as f:
+            saved = pickle.load(f)
+        for k in _STATE:
+            setattr(chk, k, saved[k])
+    if os.WIFSIGNALED(st):
+        cur = {}
+        try:
+            cur = json.load(open(os.path.join(work, "current_run.json")))
+        except (OSError, ValueError):
+            pass
+        prog = cur.get("program", "?")
+        chk.violation(f"mchap {prog} killed the interpreter (signal {os.WTERMSIG(st)}; heap corruption by this or an earlier run of the phase) on a valid dataset",
+                      {"argv": [os.path.basename(a) if str(a).startswith(work) else a for a in cur.get("argv", [])],
+                       "signal": os.WTERMSIG(st), "seed": C.seed()}, f"C07/{prog}/process-died")
+    elif os.WEXITSTATUS(st) != 0:
+        msg = ""
+        try:
+            msg = open(os.path.join(work, "infra.txt")).read()
+        except OSError:
+            pass
+        raise C.Infra(f"program phase failed in the child process (status {os.WEXITSTATUS(st)}): {msg[-1500:]}")
+
+
+def dump_state(chk, path):
+    tmp = path + ".tmp"
+    with open(tmp, "wb") as f:
+        pickle.dump({k: getattr(chk, k) for k in _STATE}, f)
+    os.replace(tmp, path)
+
+
+def program_phase(chk, drv, r, work, tier, state, n_unit):
+    with open(os.path.join(work, "current_run.json"), "w") as f:
+        json.dump({"program": "G-array producers (unit level)", "argv": []}, f)
+    unit_garrays(chk, drv, r, n_unit)
+    dump_state(chk, state)
+    if True:
         rn = Runner(chk, drv, r, work)
+        rn.state = state
         if tier == "warm":
             plans = [{"asm-gp": 1, "call:prior": 1, "call-exact:flat": 1, "call-pedigree:flat": 1}]
         elif tier == "quick":
             plans = [
-                {"asm-gp": 1, "call:flat": 1, "call:prior": 1, "call-exact:prior": 1, "call-pedigree:prior": 1, "prior-mode": "last0"},
+                {"asm-gp": 1, "call:flat": 1, "call:prior": 1, "call-exact:prior": 1, "call-pedigree:prior": 1, "prior-mode": "mixed"},
                 {"asm-gp": 1, "call:prior": 1, "call-exact:flat": 1, "call-pedigree:flat": 1},
             ]
         else:
             plans = [{"asm-gp": 1, "call:flat": 1, "call:prior": 1, "call-exact:flat": 1, "call-exact:prior": 1,
-                      "call-pedigree:flat": 1, "call-pedigree:prior": 1, "prior-mode": m} for m in ("last0", "random", "random", "random", "random", "random")]
+                      "call-pedigree:flat": 1, "call-pedigree:prior": 1, "prior-mode": m} for m in ("mixed", "last0", "random", "random", "random", "random")]
         for k, plan in enumerate(plans):
             sub = C.rng(f"{PROP}:ds{k}")
             feats = {"nodepth"} | ({"mates"} if k % 2 else set())
@@ -1218,6 +1342,4 @@ def run(tier, replay=None):
             dataset_runs(rn, ds, k, tier, plan)
         chk.extra["program_runs"] = rn.n_runs
         chk.extra["pysam_records_read"] = rn.pysam_checked
-    finally:
-        shutil.rmtree(work, ignore_errors=True)
-    return chk.finish()
+        dump_state(chk, state)
